@@ -155,6 +155,9 @@ def prop_planner(case, ctx):
                 ctx.check(abs(got - want) <= 1e-7 * scale, f"C08.{tag}.action_value_is_belief_weighted_mdp_q",
                           lambda: f"belief {b.tolist()} action {a}: {got} vs {want}")
             qv = float(q.policy.value(bel))
+            qmax = max(float(q.policy.action_value(bel, a)) for a in pomdp.action_list)
+            ctx.check(abs(qv - qmax) <= 1e-9 * scale, f"C08.{tag}.value_is_max_action_value",
+                      lambda: f"belief {b.tolist()}: value {qv}, max_a action_value {qmax}")
             # a Belief carries its own state order: the same belief listed in another order, or over its support
             # only, is the same belief
             order = list(range(len(sl)))[::-1]
